@@ -13,6 +13,12 @@
 (*                                                                         *)
 (* PutBeforeBodyWrite is the deviation "the buffer is released after the    *)
 (* header write, before its bytes have been handed to the sink".            *)
+(*                                                                         *)
+(* Error path: the header write of an instance in MayFail may fail; the    *)
+(* instance then gives its buffer back and stops.  DoublePutOnError is the *)
+(* deviation "the error path releases a buffer that was already released / *)
+(* releases it twice": the pool is a BAG of buffers, so the same buffer can *)
+(* then be handed to two page writes at once.                               *)
 (***************************************************************************)
 EXTENDS PoolProps
 
@@ -20,6 +26,8 @@ CONSTANTS Inst,                \* instances (a set of positive integers)
           NPages,              \* page writes per instance
           NBuf,                \* buffers the pool can hand out
           PutBeforeBodyWrite,  \* deviation switch
+          MayFail,             \* instances whose header write may fail (subset of Inst)
+          DoublePutOnError,    \* deviation switch
           MaxSwitches          \* bound on context switches
 
 VARIABLES pc, page, held, free, content, out, last, switches
@@ -31,7 +39,7 @@ Clean == [owner |-> 0, epoch |-> 0]
 Dirty == [owner |-> 99, epoch |-> 99]
 
 Init == /\ pc = [i \in Inst |-> "get"] /\ page = [i \in Inst |-> 1] /\ held = [i \in Inst |-> 0]
-        /\ free = Bufs
+        /\ free = [b \in Bufs |-> 1]
         /\ content \in [Bufs -> {Clean, Dirty}]      \* any prior history of the process
         /\ out = [i \in Inst |-> <<>>] /\ last = 0 /\ switches = 0
 
@@ -40,7 +48,7 @@ Sched(i) == /\ (last # 0 /\ last # i) => switches < MaxSwitches
             /\ switches' = IF last # 0 /\ last # i THEN switches + 1 ELSE switches
 
 Get(i) == /\ pc[i] = "get" /\ page[i] <= NPages /\ Sched(i)
-          /\ \E b \in free : held' = [held EXCEPT ![i] = b] /\ free' = free \ {b}
+          /\ \E b \in Bufs : free[b] > 0 /\ held' = [held EXCEPT ![i] = b] /\ free' = [free EXCEPT ![b] = @ - 1]
           /\ pc' = [pc EXCEPT ![i] = "fill"] /\ UNCHANGED <<page, content, out>>
 Fill(i) == /\ pc[i] = "fill" /\ Sched(i)
            /\ content' = [content EXCEPT ![held[i]] = [owner |-> i, epoch |-> page[i]]]
@@ -48,23 +56,29 @@ Fill(i) == /\ pc[i] = "fill" /\ Sched(i)
 \* header write: a yield point; with the deviation the buffer is released right after it
 Hdr(i) == /\ pc[i] = "hdr" /\ Sched(i)
           /\ pc' = [pc EXCEPT ![i] = "body"]
-          /\ free' = IF PutBeforeBodyWrite THEN free \cup {held[i]} ELSE free
+          /\ free' = IF PutBeforeBodyWrite THEN [free EXCEPT ![held[i]] = @ + 1] ELSE free
           /\ UNCHANGED <<page, held, content, out>>
+\* the header write fails: the instance releases its buffer (twice with the deviation) and stops
+HdrFails(i) == /\ pc[i] = "hdr" /\ i \in MayFail /\ Sched(i)
+               /\ free' = [free EXCEPT ![held[i]] = @ + (IF DoublePutOnError THEN 2 ELSE 1)]
+               /\ held' = [held EXCEPT ![i] = 0]
+               /\ pc' = [pc EXCEPT ![i] = "failed"]
+               /\ UNCHANGED <<page, content, out>>
 \* body write: the sink copies whatever the buffer holds NOW
 Body(i) == /\ pc[i] = "body" /\ Sched(i)
            /\ out' = [out EXCEPT ![i] = Append(@, content[held[i]])]
            /\ pc' = [pc EXCEPT ![i] = "put"] /\ UNCHANGED <<page, held, free, content>>
 Put(i) == /\ pc[i] = "put" /\ Sched(i)
-          /\ free' = free \cup {held[i]} /\ held' = [held EXCEPT ![i] = 0]
+          /\ free' = [free EXCEPT ![held[i]] = @ + 1] /\ held' = [held EXCEPT ![i] = 0]
           /\ page' = [page EXCEPT ![i] = @ + 1] /\ pc' = [pc EXCEPT ![i] = "get"]
           /\ UNCHANGED <<content, out>>
 
-Next == \E i \in Inst : Get(i) \/ Fill(i) \/ Hdr(i) \/ Body(i) \/ Put(i)
+Next == \E i \in Inst : Get(i) \/ Fill(i) \/ Hdr(i) \/ HdrFails(i) \/ Body(i) \/ Put(i)
 Spec == Init /\ [][Next]_vars
 
 \* ---- the property (definition in PoolProps, shared with the trace specification)
 NonInterference == NonInterferenceOn(out)
-NoSharedOwnership == \A i, j \in Inst : (i # j /\ held[i] # 0 /\ ~PutBeforeBodyWrite) => held[i] # held[j]
+NoSharedOwnership == \A i, j \in Inst : (i # j /\ held[i] # 0 /\ ~PutBeforeBodyWrite /\ ~DoublePutOnError) => held[i] # held[j]
 TypeOK == /\ \A i \in Inst : page[i] \in 1..(NPages + 1) /\ held[i] \in 0..NBuf
-          /\ free \subseteq Bufs
+          /\ \A b \in Bufs : free[b] \in 0..(NPages * Cardinality(Inst) + 2)
 =============================================================================
